@@ -1,6 +1,8 @@
 //! Component-level checks through the `verif` facade (C17 ...).
 
+use crate::engines::btree::{BtParams, Kind, Sz, TOp};
 use crate::engines::wal::{Size, WOp, WalParams};
+use crate::sqldrv::Cfg;
 use crate::findings::Findings;
 use crate::report::{run_searches, Search};
 
@@ -42,5 +44,136 @@ pub fn c17(tier: &str) -> i32 {
             "after a crash reopen records that were appended but not forced may be missing, but only as a suffix",
         ],
         "BFS over append(size class)/force/close+open/crash+open/truncate sequences, deduplicated on (record sizes, forced count, fill level of the current block, blocks left behind); oracle = list model",
+    )
+}
+
+fn bt_search(prop: &str, label: &str, cfg: Cfg, kind: Kind, prefix: Vec<TOp>, alphabet: Vec<TOp>, depth: usize, budget: usize) -> Search {
+    let findings = Findings::load();
+    let audit_prefix = prefix.len() > 1 || prefix.is_empty();
+    let p = BtParams { mode: prop.into(), cfg, kind, prefix, alphabet: alphabet.clone(), triggers: findings.ids_for(prop).into_iter().collect(), audit_prefix };
+    Search { label: label.into(), engine: "btree", params: serde_json::to_value(&p).unwrap(), alphabet_shown: alphabet.iter().map(|o| o.show()).collect(), max_depth: depth, budget, timeout_s: 180 }
+}
+
+fn cfg(page: usize, min_keys: usize, siblings: usize) -> Cfg {
+    Cfg { page_size: page, cache: 10000, pool: 1, min_keys, siblings }
+}
+
+fn c10_alphabet(keys: &[u8], sizes: &[Sz]) -> Vec<TOp> {
+    let mut a = vec![];
+    for k in keys {
+        for s in sizes {
+            a.push(TOp::Put(*k, *s));
+        }
+        a.push(TOp::Remove(*k));
+    }
+    // the non-upsert entry points on one key
+    a.push(TOp::Insert(keys[0], sizes[0]));
+    a.push(TOp::Update(keys[0], *sizes.last().unwrap()));
+    a
+}
+
+/// operations that move many keys at once, so that interior levels rebalance within a few steps
+fn run_alphabet(sz: Sz) -> Vec<TOp> {
+    vec![
+        TOp::InsRun(0, 7, sz),
+        TOp::InsRun(0, 14, sz),
+        TOp::InsRun(1, 7, sz),
+        TOp::InsRun(2, 7, sz),
+        TOp::InsRun(1, 1, sz),
+        TOp::InsRun(2, 1, sz),
+        TOp::RemRun(0, 7),
+        TOp::RemRun(1, 7),
+        TOp::RemRun(2, 14),
+        TOp::Put(1, Sz::Tiny),
+        TOp::Put(5, sz),
+        TOp::Remove(5),
+    ]
+}
+
+pub fn c10(tier: &str) -> i32 {
+    let quick = tier == "quick";
+    let mut searches = vec![];
+    let sizes_all = [Sz::Tiny, Sz::Quarter, Sz::Third, Sz::OneHalf, Sz::Three];
+    // from the empty tree: every size class on four colliding keys
+    searches.push(bt_search("C10", "empty tree, BigUInt keys, page 4096/min_keys 3/siblings 2, all size classes on 4 keys", cfg(4096, 3, 2), Kind::BigUInt, vec![], c10_alphabet(&[1, 2, 3, 4], &sizes_all), if quick { 4 } else { 6 }, if quick { 150_000 } else { 6_000_000 }));
+    // multi-level trees of 300-byte-class rows, moved around by runs of inserts/removes
+    searches.push(bt_search("C10", "seed: 120 ascending keys of 200 B (3 levels), runs of 1/7/14 inserts and removes in three key regions, siblings 1", cfg(4096, 3, 1), Kind::BigUInt, vec![TOp::SeedRun(120, Sz::S200, false)], run_alphabet(Sz::S200), if quick { 4 } else { 5 }, if quick { 60_000 } else { 2_000_000 }));
+    searches.push(bt_search("C10", "seed: 120 descending keys of 200 B, siblings 2", cfg(4096, 3, 2), Kind::BigUInt, vec![TOp::SeedRun(120, Sz::S200, true)], run_alphabet(Sz::S200), if quick { 3 } else { 4 }, if quick { 60_000 } else { 2_000_000 }));
+    // one insert at EVERY gap of the seed, after a run that grew the low end (interior-level rebalancing followed by a leaf rebalance anywhere)
+    for (sz, name) in [(Sz::S300, "300 B"), (Sz::S200, "200 B")] {
+        let mut a = vec![TOp::InsRun(0, 7, sz), TOp::InsRun(0, 14, sz), TOp::RemRun(0, 14)];
+        for g in 0..120u8 {
+            a.push(TOp::InsAt(g, sz));
+        }
+        searches.push(bt_search("C10", &format!("seed: 120 ascending keys of {name}, siblings 1: low-end runs then one insert above each of the 120 seed keys"), cfg(4096, 3, 1), Kind::BigUInt, vec![TOp::SeedRun(120, sz, false)], a, 2, if quick { 40_000 } else { 400_000 }));
+    }
+    // key types
+    for (kind, name) in [(Kind::Int, "Int (negative keys)"), (Kind::Text, "Text (prefix-related keys)"), (Kind::IntText, "composite (Int, Text)")] {
+        searches.push(bt_search("C10", &format!("seed: 40 keys of 200 B, {name} keys: small-key alphabet + runs"), cfg(4096, 3, 2), kind, vec![TOp::SeedRun(40, Sz::S200, false)], {
+            let mut a = c10_alphabet(&[0, 1, 2, 3], &[Sz::Tiny, Sz::Quarter]);
+            a.push(TOp::InsRun(0, 7, Sz::S200));
+            a.push(TOp::RemRun(1, 7));
+            a
+        }, if quick { 2 } else { 4 }, if quick { 40_000 } else { 2_000_000 }));
+    }
+    if !quick {
+        searches.push(bt_search("C10", "geometry page 8192/min_keys 4/siblings 3, seed 200 keys of 200 B", cfg(8192, 4, 3), Kind::BigUInt, vec![TOp::SeedRun(200, Sz::S200, false)], run_alphabet(Sz::S200), 4, 2_000_000));
+        searches.push(bt_search("C10", "seed: 6 rows of 1.5 pages (every cell has an overflow chain), all size classes", cfg(4096, 3, 2), Kind::BigUInt, vec![TOp::SeedRun(6, Sz::OneHalf, false)], c10_alphabet(&[1, 5], &sizes_all), 4, 2_000_000));
+    }
+    run_searches(
+        "C10",
+        tier,
+        "model_checking",
+        searches,
+        &[
+            "the tree is driven through the verif facade (Btree::insert/upsert/update/remove/search/iter_forward/into_iter_backward over a real Pager); payload size classes are relative to the page size",
+            "after EVERY operation: lookup of every key ever used, forward and backward scan against a BTreeMap model; page-graph audit computed in the harness from raw page dumps: keys strictly increasing within pages and across the leaf chain, separators bound their subtrees, all leaves at one depth, next/previous sibling links equal the key order, no empty non-root page",
+            "states are deduplicated on a hash of (model contents, full page-graph digest including page numbers and the free list)",
+            "minimum-occupancy (underflow/overflow thresholds) is not asserted: only emptiness of non-root pages",
+            "multi-level seeds use 200-byte rows: trees whose rows are a quarter page or larger break after a handful of inserts (listed finding), so the large size classes are explored from the empty tree on four keys only",
+        ],
+        "BFS over put/insert/update/remove sequences with payload size classes {8 B, 200 B, 1/4 page, 1/3 page, 1.5 pages, 3 pages} from the empty tree and over runs of 1/7/14 inserts and removes in three key regions from pre-grown 3-level trees, for BigUInt, Int, Text and composite keys and several tree geometries",
+    )
+}
+
+pub fn c11_component_searches(quick: bool) -> Vec<Search> {
+    let mut alpha = vec![];
+    for k in [1u8, 2, 3] {
+        alpha.push(TOp::Put(k, Sz::Tiny));
+        alpha.push(TOp::Put(k, Sz::Third));
+        alpha.push(TOp::Put(k, Sz::OneHalf));
+        alpha.push(TOp::Put(k, Sz::Three));
+        alpha.push(TOp::Remove(k));
+    }
+    alpha.push(TOp::Put2(1, Sz::Three));
+    alpha.push(TOp::Put2(2, Sz::Third));
+    alpha.push(TOp::Remove2(1));
+    alpha.push(TOp::Dealloc2);
+    let mut alpha2 = run_alphabet(Sz::S200);
+    alpha2.push(TOp::Grow2(40, Sz::S200));
+    alpha2.push(TOp::Grow2(7, Sz::S200));
+    alpha2.push(TOp::Put2(1, Sz::Three));
+    alpha2.push(TOp::Dealloc2);
+    vec![
+        bt_search("C11", "two trees sharing a pager: overflow rows, shrinking/growing updates, removes, whole-tree dealloc (from empty)", cfg(4096, 3, 2), Kind::BigUInt, vec![], alpha, if quick { 4 } else { 6 }, if quick { 150_000 } else { 6_000_000 }),
+        bt_search("C11", "multi-level first tree (120 keys of 200 B) + second tree grown and deallocated: runs of inserts/removes, whole-tree dealloc of a multi-level tree", cfg(4096, 3, 2), Kind::BigUInt, vec![TOp::SeedRun(120, Sz::S200, false)], alpha2, if quick { 3 } else { 5 }, if quick { 60_000 } else { 3_000_000 }),
+    ]
+}
+
+pub fn c11(tier: &str) -> i32 {
+    let quick = tier == "quick";
+    let searches = c11_component_searches(quick);
+    run_searches(
+        "C11",
+        tier,
+        "model_checking",
+        searches,
+        &[
+            "component level: two B+trees sharing one real pager, driven through the verif facade; the whole-file audit is computed in the harness from raw page dumps after EVERY operation",
+            "audit: starting from the two roots every page id in 1..total_pages must be reached exactly once - as a node of exactly one tree, as a link of exactly one overflow chain referenced by exactly one cell, or as a member of the free list, whose chain must be acyclic and agree with the recorded head and tail",
+            "liveness half: the file must not grow during an operation while pages that were free before it are still free after it",
+            "the SQL-level part of the property (catalogue roots, DROP TABLE, VACUUM, reopen) is covered by the end-of-history audits of the seq-based checks only indirectly; this check decides the tree/pager level the property anchors",
+        ],
+        "BFS over put (8 B .. 3 pages)/remove/run-insert/run-remove operations on a first tree and put/remove/grow/whole-tree dealloc on a second tree sharing the pager, from the empty file and from a 3-level first tree",
     )
 }
